@@ -144,4 +144,10 @@ def callsOf (g : Nat) : PBody → List (List Expr)
   | .ite _ t e => callsOf g t ++ callsOf g e
   | .call _ h args k => if h = g then args :: callsOf g k else callsOf g k
 
+/-- Eliminating several unused parameters of `g`, highest index first (what `rewrite_sources` does in
+one sweep: `retain` over the parameter list and over every argument list). -/
+def dropMany (g : Nat) (is : List Nat) (prog : Prog) : Prog := is.foldl (fun pr i => dropParam g i pr) prog
+
+def eraseMany {α : Type} (is : List Nat) (l : List α) : List α := is.foldl (fun acc i => acc.eraseIdx i) l
+
 end SamVerif.CpeProg
